@@ -884,3 +884,5 @@ package appencryption
 //@   safety C07
 //@ func (*envelopeEncryption).DecryptDataRowRecord$1
 //@   safety C07
+//@ func (*keyCache).GetOrLoad
+//@   ensures [C20,C05:a-loaded-entry-is-stamped-with-the-time-of-the-load] err == nil && lcalls == old(lcalls) + 1 ==> cval(c.keys)[ck(id.ID, result.CryptoKey.created)].loadedAt >= old(now())
